@@ -52,6 +52,9 @@ else:
 
 SET_GENERATOR_TYPES = (type({}.keys()), type({}.values()), type({}.items()))
 
+#: How close two numbers must be when one of them is a float and no delta is given
+DEFAULT_DELTA = .001
+
 LIST_GENERATOR_TYPES = (type(map(bool, [])), type(filter(bool, [])),
                         type(range(0)), type(reversed([])), type(zip()),
                         type(enumerate([])))
@@ -118,6 +121,9 @@ def equality_test(actual, expected, _exact_strings, _delta):
     Returns:
 
     """
+    # The documented meaning of "no delta given" is the default tolerance
+    if _delta is None:
+        _delta = DEFAULT_DELTA
     # Check if generators
     if isinstance(expected, LIST_GENERATOR_TYPES):
         expected = list(expected)
@@ -156,8 +162,9 @@ def equality_test(actual, expected, _exact_strings, _delta):
     elif isinstance(expected, frozenset) and isinstance(actual, frozenset):
         return _are_sets_equal(actual, expected, _exact_strings, _delta)
     elif isinstance(expected, dict) and isinstance(actual, dict):
+        # Keys are looked up below, so they have to be the very same keys (no tolerance, no normalisation)
         primary_keys = set(expected.keys())
-        if not _are_sets_equal(primary_keys, set(actual.keys()), _exact_strings, _delta):
+        if primary_keys != set(actual.keys()):
             return False
         for key in primary_keys:
             if not equality_test(expected[key], actual[key], _exact_strings, _delta):
@@ -204,6 +211,11 @@ def _are_sets_equal(x, y, _exact_strings, _delta):
         return False
     for x_element in x:
         if not _set_contains(x_element, y, _exact_strings, _delta):
+            return False
+    # ... and the other way round: with a tolerance, two elements of x can both be
+    # close to one element of y, and the verdict must not depend on the argument order
+    for y_element in y:
+        if not _set_contains(y_element, x, _exact_strings, _delta):
             return False
     return True
 
